@@ -349,6 +349,47 @@ def combination_order_ignores_member_order(ctx):
     ctx.require(n == 2, "expected the union and the intersection order hooks")
 
 
+def union_of_narrower_alternatives_is_narrower(ctx):
+    """C10: a union whose alternatives that are related to another type are all more specific than it (value-dependent
+    alternatives against the bound of one of them) is itself more specific - so the method on the union is preferred over
+    the method on the bound when its condition holds, instead of tying with it.  The union's order hook interpreted on
+    two and three alternatives of which some are unrelated."""
+    import itertools
+
+    en = A.order_enum(ctx.repo)
+    cs = [c for c in ctx.repo.all_classes() if c.name == "Union" and "__type_order__" in c.methods]
+    ctx.require(len(cs) == 1, "the union's order hook was not found")
+    c = cs[0]
+    m = c.methods["__type_order__"]
+    ctx.touch(m)
+    rv = recv_name(m)
+    other = [p_ for p_ in m.params if p_ != rv][0]
+    bad = None
+    cases = 0
+    for k in (2, 3):
+        names = tuple(f"m{i}" for i in range(k))
+        for assign in itertools.product(("LESS", "NONE"), repeat=k):
+            if "LESS" not in assign:
+                continue
+            tab = dict(zip(names, assign))
+
+            def to(a, b, tab=tab):
+                return tab.get(a, "NONE") if b == "O" else "NONE"
+
+            plain = {"getattr": lambda o, name, default=None: default, "isinstance": lambda a, b: False, "type": lambda x: "TYPE-OF-" + str(x)}
+            got = Interp(en.name, stubs={"typeorder": to, **plain}).run(m.node, {rv: "SELF", other: "O", f"{rv}.types": names, f"{rv}.__args__": names, c.name: "THE-CLASS"})
+            cases += 1
+            if got != "LESS" and bad is None:
+                bad = f"with alternatives that compare {tab} to the other type the union answers {got}"
+    ctx.ob(
+        f"{m.key}:narrower-alternatives",
+        m.loc(),
+        f"a union whose related alternatives are all more specific than another type is more specific than it, unrelated alternatives notwithstanding ({cases} cases interpreted)",
+        bad is None,
+        (bad or "") + ": a method on `Dependent[int, ..] | Dependent[str, ..]` is no longer preferred over the method on `int` when its condition holds - the call is ambiguous",
+    )
+
+
 def r4_tables(ctx):
     en, opp = _method_of_enum(ctx, "opposite")
     en, mrg = _method_of_enum(ctx, "merge")
